@@ -37,13 +37,14 @@ Exact(a, b, deg) == QDiv(QSub(QPow(b, deg + 1), QPow(a, deg + 1)), QI(deg + 1))
 ExactUpTo(n) == IF n = 1 THEN 1 ELSE 2 * n - 1
 
 Init == R!Init /\ prob \in {p \in Probs : p.deg <= 2 * p.n} /\ inside = TRUE
-Next ==
-  \/ R!Begin(prob.a, prob.b, prob.n, F(prob.a), F(prob.b)) /\ UNCHANGED <<prob, inside>>
-  \/ /\ R!RowStep([k \in 1..Len(R!RowAbscissae) |-> F(R!RowAbscissae[k])])
-     /\ inside' = (inside /\ \A k \in 1..Len(R!RowAbscissae) : QLt(prob.a, R!RowAbscissae[k]) /\ QLt(R!RowAbscissae[k], prob.b))
-     /\ UNCHANGED prob
-  \/ R!Finish /\ UNCHANGED <<prob, inside>>
-  \/ R!Done /\ UNCHANGED <<prob, inside>>
+\* (named disjuncts: TLC then reports how often each was taken - the vacuity guard of the check reads that)
+Begin == R!Begin(prob.a, prob.b, prob.n, F(prob.a), F(prob.b)) /\ UNCHANGED <<prob, inside>>
+RowStep == /\ R!RowStep([k \in 1..Len(R!RowAbscissae) |-> F(R!RowAbscissae[k])])
+           /\ inside' = (inside /\ \A k \in 1..Len(R!RowAbscissae) : QLt(prob.a, R!RowAbscissae[k]) /\ QLt(R!RowAbscissae[k], prob.b))
+           /\ UNCHANGED prob
+Finish == R!Finish /\ UNCHANGED <<prob, inside>>
+Done == R!Done /\ UNCHANGED <<prob, inside>>
+Next == Begin \/ RowStep \/ Finish \/ Done
 Spec == Init /\ [][Next]_vars /\ WF_vars(Next)
 
 ExactOnLowDegrees == (pc = "ok" /\ prob.deg <= ExactUpTo(prob.n)) => result = Exact(prob.a, prob.b, prob.deg)
